@@ -19,7 +19,7 @@ LIB = ["iv_avl", "iv_event", "iv_fatal", "iv_task", "iv_timer", "iv_tls", "iv_wo
        "iv_event_raw_posix", "iv_fd", "iv_fd_poll", "iv_fd_epoll", "iv_fd_pump",
        "iv_main_posix", "iv_popen", "iv_signal", "iv_thread_posix", "iv_tid_posix",
        "iv_time_posix", "iv_wait", "iv_inotify"]
-HARNESS = ["plan", "gen", "genx", "engine", "ext", "main"]
+HARNESS = ["plan", "gen", "genx", "genx2", "genx3", "engine", "ext", "ext2", "ext3", "main"]
 SAN = {
     "asan": ["-fsanitize=address,undefined", "-fno-sanitize=null,alignment,object-size",
              "-fno-sanitize-recover=all", "-fno-omit-frame-pointer"],
@@ -114,7 +114,7 @@ def _build(flavour, bdir):
                          [src, "-o", raw],
                          ["objcopy", "--redefine-syms=" + redirect, raw, out]))
     hsrc = [os.path.join(VERIF, "harness", n + ".c") for n in HARNESS]
-    hdeps = hsrc + [os.path.join(VERIF, "harness", "hz.h"), os.path.join(VERIF, "harness", "engine.h"),
+    hdeps = hsrc + [os.path.join(VERIF, "harness", "hz.h"), os.path.join(VERIF, "harness", "engine.h"), os.path.join(VERIF, "harness", "ext.h"),
                     os.path.join(VERIF, "sim", "simk.h"), os.path.join(VERIF, "sim", "simk.c")]
     hhash = sha(hdeps, flavour + "h2")
     hdir = os.path.join(bdir, "h-" + hhash)
